@@ -15,6 +15,7 @@ Property theorems only (plus the helper lemmas they need). The model (`CD.flags`
 * `C17_views_pure`        with a copied graph no sequence of operations changes any diagram that existed before
 * `C17_views_partial`     the code as it is: true of every run in which no shared graph loses an edge
 * `C17_cex_subdiagram`    the sub-diagram derivation on the shared graph removes edges of its source (test)
+* `C17_accessors`         after any run every diagram's accessors report exactly its own graph
 -/
 namespace KrroodVerif.CD
 
@@ -534,6 +535,7 @@ theorem step_ext (q : Quirks) (hq : q.shallowCopy = false) (s : Store) (wf : s.W
     s.Ext (stepOp q s op).1 ∧ (stepOp q s op).1.WF := by
   cases op with
   | query d k => exact ⟨Store.Ext.refl s, wf⟩
+  | access d c k => exact ⟨Store.Ext.refl s, wf⟩
   | render d b => exact ⟨Store.Ext.refl s, wf⟩
   | copy d =>
     simp only [stepOp]
@@ -567,6 +569,7 @@ theorem step_ext_untouched (q : Quirks) (s : Store) (wf : s.WF) (op : Op) (hu : 
   | true =>
     cases op with
     | query d k => exact ⟨Store.Ext.refl s, wf⟩
+    | access d c k => exact ⟨Store.Ext.refl s, wf⟩
     | render d b => exact ⟨Store.Ext.refl s, wf⟩
     | copy d => exact (by
         simp only [stepOp]
@@ -674,5 +677,114 @@ theorem C17_cex_subdiagram :
       ∧ changes .today (Store.init g) ops ≠ specChanges ops
       ∧ ((runOps .today (Store.init g) ops).graphOf 0).map (·.edges) = some [⟨1, 2, .inh⟩, ⟨1, 0, .assoc ⟨false, 0⟩⟩]
       ∧ changes { Quirks.today with shallowCopy := false } (Store.init g) ops = specChanges ops := by decide
+
+/-! ## what the accessors report -/
+
+theorem mem_reported (g : Graph) (hc : g.Closed) (e : Edge) : e ∈ reported g ↔ e ∈ g.edges := by
+  simp only [reported, outEdges, List.mem_flatMap, List.mem_filter, beq_iff_eq]
+  constructor
+  · rintro ⟨_, _, he, _⟩; exact he
+  · intro he; exact ⟨e.src, (hc e he).1, he, rfl⟩
+
+theorem closed_buildWith (ep : Ann → Leaf) (w : World) (order : List Nat) : (buildWith ep w order).Closed := by
+  intro e he
+  simp only [buildWith, nodesOf, List.mem_append, mem_inhEdges, mem_assocEdges] at he ⊢
+  rcases he with ⟨_, hd, hs, _⟩ | ⟨hs, hd, _⟩
+  · exact ⟨hs, hd⟩
+  · exact ⟨hs, hd⟩
+
+theorem removeEdge_sub (g : Graph) (p : Nat × Nat) :
+    (removeEdge g p).nodes = g.nodes ∧ ∀ e ∈ (removeEdge g p).edges, e ∈ g.edges := by
+  refine ⟨rfl, ?_⟩
+  intro e he
+  simp only [removeEdge, List.mem_reverse] at he
+  exact List.mem_reverse.mp (List.mem_of_mem_eraseP he)
+
+theorem closed_foldl_removeEdge (ps : List (Nat × Nat)) : ∀ g : Graph, g.Closed → (ps.foldl removeEdge g).Closed := by
+  induction ps with
+  | nil => intro g h; exact h
+  | cons p ps ih =>
+    intro g h
+    apply ih
+    intro e he
+    have := (removeEdge_sub g p).2 e he
+    exact h e this
+
+theorem closed_derive (g : Graph) (fl : Bool) (h : g.Closed) : (derive g fl).Closed :=
+  closed_foldl_removeEdge _ g h
+
+/-- every graph of the store is closed -/
+abbrev Store.AllClosed (s : Store) : Prop := ∀ g ∈ s.graphs, g.Closed
+
+theorem step_allClosed (q : Quirks) (s : Store) (h : s.AllClosed) (op : Op) : (stepOp q s op).1.AllClosed := by
+  cases op with
+  | query d k => exact h
+  | access d c k => exact h
+  | render d b => exact h
+  | copy d =>
+    simp only [stepOp]
+    cases s.diagrams[d]? with
+    | none => exact h
+    | some gid => exact h
+  | sub d fl =>
+    cases hd : s.diagrams[d]? with
+    | none => simp only [stepOp, hd]; exact h
+    | some gid =>
+      cases hg : s.graphs[gid]? with
+      | none => simp only [stepOp, hd, hg]; exact h
+      | some g =>
+        have hgc : g.Closed := h g (List.mem_of_getElem? hg)
+        simp only [stepOp, hd, hg]
+        split
+        · intro g' hg'
+          rcases List.mem_or_eq_of_mem_set hg' with hm | rfl
+          · exact h g' hm
+          · exact closed_derive g fl hgc
+        · intro g' hg'
+          rcases List.mem_append.mp hg' with hm | hm
+          · exact h g' hm
+          · rw [List.mem_singleton.mp hm]; exact closed_derive g fl hgc
+
+theorem runOps_allClosed (q : Quirks) (ops : List Op) : ∀ s : Store, s.AllClosed → (runOps q s ops).AllClosed := by
+  induction ops with
+  | nil => intro s h; exact h
+  | cons op ops ih => intro s h; exact ih _ (step_allClosed q s h op)
+
+theorem misreported_nil (s : Store) (h : s.AllClosed) : misreported s = [] := by
+  unfold misreported
+  rw [List.filterMap_eq_nil_iff]
+  intro d _
+  cases hg : s.graphOf d with
+  | none => rfl
+  | some g =>
+    have hm : g ∈ s.graphs := by
+      unfold Store.graphOf at hg
+      cases hd : s.diagrams[d]? with
+      | none => rw [hd] at hg; cases hg
+      | some gid => rw [hd] at hg; exact List.mem_of_getElem? hg
+    have hc := h g hm
+    have h1 : (reported g).all (g.edges.contains ·) = true := by
+      rw [List.all_eq_true]; intro e he
+      exact List.contains_iff_mem.mpr ((mem_reported g hc e).mp he)
+    have h2 : g.edges.all ((reported g).contains ·) = true := by
+      rw [List.all_eq_true]; intro e he
+      exact List.contains_iff_mem.mpr ((mem_reported g hc e).mpr he)
+    simp only [h1, h2, Bool.and_self, if_true]
+
+/-- **C17_accessors.** For every quirk setting, world, class list and sequence of operations (queries and single
+accessor calls on the source and on derived views in any order, renderings, copies, derivations): after the run every
+diagram's per-class accessors (`get_out_edges` and its filters) report exactly the edges of that diagram's own graph —
+for the source diagram, whose graph `C17_views_pure` shows unchanged, exactly the edges `C17_edges` specifies. -/
+theorem C17_accessors (q : Quirks) (w : World) (order : List Nat) (ops : List Op) :
+    misreported (runOps q (Store.init (build q w order)) ops) = [] ∧
+    ∀ e, e ∈ reported (build q w order) ↔ e ∈ (build q w order).edges := by
+  have hc : (build q w order).Closed := closed_buildWith _ w order
+  refine ⟨misreported_nil _ (runOps_allClosed q ops _ ?_), mem_reported _ hc⟩
+  intro g hg
+  simp only [Store.init, List.mem_singleton] at hg
+  rw [hg]; exact hc
+
+/-- `misreported` is not constantly empty: a graph with an edge whose source is not a node is misreported -/
+example : misreported ⟨[⟨[0], [⟨1, 0, .inh⟩]⟩], [0]⟩ ≠ [] := by decide
 
 end KrroodVerif.CD
